@@ -15,7 +15,7 @@ func GoFloatToInt(x *Term, w int) *Term {
 		// the integers are below 2^52 in magnitude (conversions, sum and truncation are then exact);
 		// outside that range the floating-point expression is kept.
 		small := func(t *Term) *Term {
-			return And(Slt(IntC(-(1 << 52)), t), Slt(t, IntC(1<<52)))
+			return And(Slt(IntC(-(1<<52)), t), Slt(t, IntC(1<<52)))
 		}
 		asInt := func(t *Term) (*Term, bool) {
 			if t.Op == OpSBVToFP && t.Args[0].Sort.W == 64 {
